@@ -971,6 +971,13 @@ def register(reg):
             return [("headers_then_window_then_flush", ("C03", "C13"), names == ["h2.send_headers", "h2.increment_flow_control_window", "call:" + H2 + "._write_outgoing_data"])]
 
         def exc_checks(self, c, exc):
+            if exc.cls == H2_PROTOCOL_ERROR and exc.tag.get("from", "").startswith("h2.send_headers"):
+                # from the property (C03 "a request whose head cannot legally be encoded is rejected ... and nothing of it is
+                # written" - and the NEXT request must still be serialised faithfully): h2 validates a header block WHILE the HPACK
+                # encoder is already indexing its earlier fields (the assumed contract "a raising h2 call leaves the state
+                # unchanged" is false here: design_probes/p43), so after a rejected block the connection must not carry another
+                # request - the peer could not decode it
+                return [("a_rejected_header_block_takes_the_connection_out_of_service_for_later_requests", ("C03", "C12"), F(c, c.self, "H2._connection_error"))]
             if exc.cls == "IndexError":
                 return [("request_has_a_host_header", ("C03", "C15"), False)]
             if exc.cls == LPE and not exc.tag.get("from"):
